@@ -98,7 +98,7 @@ m = {
         {"name": "selftest", "path": "selftest/run.py", "serves_properties": sorted(C), "kind_free_text": "mutation self-test of the checkers on scratch copies (breaking variants must be reported, preserving variants must stay silent)"},
     ],
     "checks": checks,
-    "notes": "Technique family: static analysis only. No check imports or executes ceos_alos2. source_commits are unguarded fix: commits (genuine defects D1-D4, D6, D7, D9, D10); known findings D5, D8, D11 are listed in known_findings.json. " + "; ".join(FIXES),
+    "notes": "Technique family: static analysis only. No check imports or executes ceos_alos2. source_commits are unguarded fix: commits (genuine defects D1-D4, D6, D7, D9, D10, D12); known findings D5, D8, D11 are listed in known_findings.json. " + "; ".join(FIXES),
     "not_applicable": [],
 }
 json.dump(m, open(os.path.join(HERE, "MANIFEST.json"), "w"), indent=1)
